@@ -1,3 +1,6 @@
 INIT Init
 NEXT Next
 CHECK_DEADLOCK FALSE
+CONSTANT AliasRecheck = TRUE
+CONSTANT RenameScopeCheck = TRUE
+CONSTANT CallableWalks = 2
